@@ -139,6 +139,41 @@ func (la *lockAn) guardedSites(fn *ssa.Function) []lockSite {
 	return out
 }
 
+// returnsPoolFresh: every return of fn yields an object just taken from a pool (pools.Pool.New()) or just
+// allocated, directly or through another such helper, possibly after initialising it.
+func returnsPoolFresh(fn *ssa.Function, depth int) bool {
+	if fn == nil || fn.Blocks == nil || depth > 3 {
+		return false
+	}
+	rets := returnsOf(fn)
+	if len(rets) == 0 {
+		return false
+	}
+	for _, ret := range rets {
+		if len(ret.Results) == 0 {
+			return false
+		}
+		v := unspill(ret.Results[0])
+		switch x := v.(type) {
+		case *ssa.Alloc:
+			if !x.Heap {
+				return false
+			}
+		case *ssa.Call:
+			cc := x.Common()
+			if cc.IsInvoke() && cc.Method.Name() == "New" && typeIs(cc.Value.Type(), poolsPath, "Pool") {
+				continue
+			}
+			if !returnsPoolFresh(cc.StaticCallee(), depth+1) {
+				return false
+			}
+		default:
+			return false
+		}
+	}
+	return true
+}
+
 func (la *lockAn) flow(fn *ssa.Function) *FlowResult {
 	if r, ok := la.held[fn]; ok {
 		return r
@@ -156,7 +191,9 @@ func (la *lockAn) flow(fn *ssa.Function) *FlowResult {
 			if cc.IsInvoke() && cc.Method.Name() == "New" && typeIs(cc.Value.Type(), poolsPath, "Pool") {
 				return call, true
 			}
-			if cal := cc.StaticCallee(); cal != nil && strings.HasPrefix(cal.Name(), "acquire") {
+			// a helper that hands out a pool object (acquireState() { return statePool.New() }) - judged by what it
+			// returns, not by its name: channel.acquire() returns the SHARED state of a reference-counted channel
+			if cal := cc.StaticCallee(); cal != nil && returnsPoolFresh(cal, 0) {
 				return call, true
 			}
 		}
